@@ -406,17 +406,19 @@ class C20:
             return out
 
         def run_cli(argv):
-            import kernpy.__main__ as cli
+            # the real command-line contract: `python -m kernpy <args>`, in process (runpy executes kernpy/__main__.py as __main__)
+            import runpy
             out, err = io.StringIO(), io.StringIO()
             old_argv = sys.argv
             sys.argv = ['kernpy'] + argv
+            sys.modules.pop('kernpy.__main__', None)      # run_module warns if a stale copy of the module is already imported
             status = 'returned'
             try:
                 with contextlib.redirect_stdout(out), contextlib.redirect_stderr(err):
                     try:
-                        cli.main()
+                        runpy.run_module('kernpy', run_name='__main__', alter_sys=True)
                     except SystemExit as se:
-                        status = f'exit {se.code}'
+                        status = 'returned' if se.code in (None, 0) else f'exit {se.code}'
                     except Exception as ex:
                         status = 'raised ' + type(ex).__name__
             finally:
